@@ -685,7 +685,6 @@ func isParentHelper(fn *ssa.Function) bool {
 	return found
 }
 
-
 // checkKeyForms (K3): when entries are stored in the destination map under
 // more than one key spelling (directories with a trailing slash, everything
 // else without), a collision check that looks up only the inserting entry's
